@@ -732,6 +732,10 @@ class Cx:
             return sorted(v, key=repr)
         if v is CE.UNKNOWN:
             raise CxError('iteration over an unknown constant')
+        if isinstance(v, Opaque):
+            if '__iter__' in v.methods:
+                return list(v.methods['__iter__'](self, [], {}))
+            raise CxError('iteration over {}'.format(v))
         raise PyRaise('TypeError', ('not iterable: ' + type(v).__name__,))
 
     @staticmethod
@@ -1713,6 +1717,18 @@ class Cx:
             raise CxError('binary operator')
 
     def percent_format(self, fmt, arg):
+        def concrete(v):
+            if isinstance(v, (bool, int, float, str, bytes, type(None))):
+                return True
+            if isinstance(v, tuple):
+                return all(concrete(x) for x in v)
+            return False
+        if concrete(arg):
+            # Python's own operator: exact for str and for bytes templates
+            try:
+                return fmt % arg
+            except (TypeError, ValueError) as ex:
+                raise PyRaise(type(ex).__name__, (str(ex),))
         isb = isinstance(fmt, bytes)
         f = fmt.decode('latin-1') if isb else fmt
         args = list(arg) if isinstance(arg, tuple) else [arg]
